@@ -22,6 +22,7 @@ import SharkVerif.Lemmas.Dataset
 import SharkVerif.Lemmas.IterAdvance
 import SharkVerif.Lemmas.Subset
 import SharkVerif.Lemmas.View
+import SharkVerif.Lemmas.ByClass
 namespace SharkVerif.C03
 open SharkVerif.CheckedNat SharkVerif.Gen.BatchArith SharkVerif.BatchArith SharkVerif.Dataset
 
@@ -803,6 +804,95 @@ theorem reachable_access_paths (d d' : LabeledData ι κ) (hinv : Inv d) (h : Re
   obtain ⟨⟨_, hne⟩, _⟩ := ops_preserve_multiset d d' hinv h
   obtain ⟨h1, h2, h3⟩ := element_eq_iter_eq_batch d'.inputs hne
   exact ⟨h1, h2, h3, d'.inputs.sum_partitioning⟩
+
+/-! ## F. class-wise repartitioning -/
+
+/-- **repartitionByClass**: whenever the call succeeds (for any label multiset — gaps included — and any
+maximum batch size), the result is well-formed, is a permutation of the original (input, label) pairs, and is
+exactly the original sequence gathered by the class-order index vector (all members of class 0 in their
+original order, then class 1, …) -/
+theorem repartitionByClass_perm (d d' : CData ι) (bs : Nat) (hw : WF d) (h : repartitionByClass d bs = .ok d') :
+    WF d' ∧ (pairs d').Perm (pairs d) ∧
+    (pairs d').map some =
+      (classOrder d.labels.flat (d.labels.flat.foldl max 0 + 1)).map ((pairs d)[·]?) := by
+  simp only [repartitionByClass, bind_ok, ofOpt_ok] at h
+  obtain ⟨counts, hcounts, ⟨_, _, sizes⟩, _, d1, hrep, labs, hlabs, hreo⟩ := h
+  -- class counts
+  simp only [classSizes, numberOfClasses, bind_ok, require_ok, pure_ok] at hcounts
+  obtain ⟨C, ⟨_, _, hC⟩, hcnt⟩ := hcounts
+  have hclen : counts.length = d.labels.flat.foldl max 0 + 1 := by rw [← hcnt, ← hC]; simp
+  -- after repartition
+  obtain ⟨hw1, hp1, hpart1⟩ := repartition_pairs d d1 sizes hrep
+  have hne1 : allPos d1.inputs.partitioning := by
+    have hr := hrep
+    simp only [LabeledData.repartition, bind_ok, pure_ok] at hr
+    obtain ⟨i, hi, l, _, rfl⟩ := hr
+    have hip := (repartition_flat _ _ _ hi).2.1
+    simp only [Data.repartition, bind_ok, require_ok, pure_ok, Bool.and_eq_true] at hi
+    obtain ⟨_, _, _, ⟨_, hall⟩, _⟩ := hi
+    show allPos i.partitioning
+    rw [hip]; exact allPos_of_all sizes hall
+  -- the labels read through the element iterator
+  have hfwd := labeled_elementsFwd d1 hw1 hne1
+  have hl := mapM_id_some _ _ hlabs
+  rw [hfwd] at hl
+  have hlabs' : labs = pairs d1 := by
+    have h4 := congrArg (List.filterMap id) hl
+    simpa [List.filterMap_map, pairs] using h4.symm
+  have hlenfl : d.inputs.flat.length = d.labels.flat.length := WF_flat_length d hw
+  have hsnd : labs.map (·.2) = d.labels.flat := by
+    rw [hlabs', hp1]
+    simp only [pairs]
+    apply List.map_snd_zip; omega
+  rw [hsnd, hclen] at hreo
+  -- the index vector is a permutation of all positions
+  have hbound : ∀ l ∈ d.labels.flat, l < d.labels.flat.foldl max 0 + 1 := by
+    intro l hl
+    have := (foldl_max_ge d.labels.flat 0).1 l hl
+    omega
+  have hperm := classOrder_perm d.labels.flat _ hbound
+  have hn1 : d1.numberOfElements = d.labels.flat.length := by
+    rw [← pairs_length d1 hw1, hp1]; simp [pairs, hlenfl]
+  have hv : (Op.reorder (classOrder d.labels.flat (d.labels.flat.foldl max 0 + 1))).valid d1 := by
+    show (classOrder _ _).Perm (List.range d1.numberOfElements)
+    rw [hn1]; exact hperm
+  obtain ⟨⟨hw2, _⟩, hp2⟩ := step_preserves d1 d' (.reorder _) ⟨hw1, hne1⟩ hv hreo
+  refine ⟨hw2, hp1 ▸ hp2, ?_⟩
+  have := (reorderElements_pairs d1 d' _ hw1 hne1 hreo).2
+  rw [hp1] at this
+  rw [this]
+  have hlen : (classOrder d.labels.flat (d.labels.flat.foldl max 0 + 1)).length = d1.numberOfElements := by
+    rw [hperm.length_eq, hn1]; simp
+  rw [← hlen, List.take_length]
+
+/-- **repartitionByClass_sorted**: after a successful `repartitionByClass` the labels appear in ascending
+order (the elements are grouped by class), for every label multiset incl. absent classes -/
+theorem repartitionByClass_sorted (d d' : CData ι) (bs : Nat) (hw : WF d) (h : repartitionByClass d bs = .ok d') :
+    ((pairs d').map (·.2)).Pairwise (· ≤ ·) := by
+  obtain ⟨_, _, hexp⟩ := repartitionByClass_perm d d' bs hw h
+  have hlen := WF_flat_length d hw
+  have h1 := congrArg (List.map (fun o : Option (ι × Nat) => (o.map (·.2)).getD 0)) hexp
+  simp only [List.map_map] at h1
+  have e1 : (List.map ((fun o : Option (ι × Nat) => (o.map (·.2)).getD 0) ∘ some) (pairs d')) = (pairs d').map (·.2) := by
+    apply List.map_congr_left; intro x _; rfl
+  have e2 : List.map ((fun o : Option (ι × Nat) => (o.map (·.2)).getD 0) ∘ fun x => (pairs d)[x]?)
+      (classOrder d.labels.flat (d.labels.flat.foldl max 0 + 1)) =
+      (classOrder d.labels.flat (d.labels.flat.foldl max 0 + 1)).map (fun i => d.labels.flat[i]?.getD 0) := by
+    apply List.map_congr_left
+    intro i _
+    simp only [Function.comp, pairs, getElem?_zip_bind]
+    cases ha : d.inputs.flat[i]? with
+    | none =>
+      have : d.inputs.flat.length ≤ i := by
+        rcases Nat.lt_or_ge i d.inputs.flat.length with hlt | hge
+        · rw [List.getElem?_eq_getElem hlt] at ha; simp at ha
+        · exact hge
+      rw [List.getElem?_eq_none (by omega : d.labels.flat.length ≤ i)]
+      simp
+    | some a => cases hb : d.labels.flat[i]? <;> simp
+  rw [e1, e2] at h1
+  rw [h1]
+  exact classOrder_sorted _ _
 
 /-! ## non-vacuity -/
 example : optimalBatchSizes 10 4 = some [4, 3, 3] := by decide
